@@ -21,9 +21,13 @@ Fixpoint gf_mul_fuel (n : nat) (a b : Z) : Z :=
   end.
 Definition gf_mul (a b : Z) : Z := gf_mul_fuel 8 a b.
 
-(* multiplicative inverse, 0 mapped to 0 (5.1.1 step 1), found by search *)
+(* multiplicative inverse, 0 mapped to 0 (5.1.1 step 1): a^254 = a^2.a^4.a^8.a^16.a^32.a^64.a^128;
+   that this is the inverse is checked for all 256 elements below ([gf_inv_correct]) *)
 Definition gf_inv (a : Z) : Z :=
-  match find (fun y => gf_mul a y =? 1) all_bytes with Some y => y | None => 0 end.
+  let a2 := gf_mul a a in let a4 := gf_mul a2 a2 in let a8 := gf_mul a4 a4 in
+  let a16 := gf_mul a8 a8 in let a32 := gf_mul a16 a16 in let a64 := gf_mul a32 a32 in
+  let a128 := gf_mul a64 a64 in
+  gf_mul a2 (gf_mul a4 (gf_mul a8 (gf_mul a16 (gf_mul a32 (gf_mul a64 a128))))).
 
 Definition rotl8 (b : Z) (k : Z) : Z := Z.land (Z.lor (Z.shiftl b k) (Z.shiftr b (8 - k))) 255.
 
@@ -69,8 +73,9 @@ Proof. split; vm_compute; reflexivity. Qed.
 Lemma rounds_are_fips197 : aes_ROUNDS = [(16, 10); (24, 12); (32, 14)].
 Proof. reflexivity. Qed.
 
-(* the inverse really is one: a * inv(a) = 1 for a <> 0 *)
-Lemma gf_inv_correct : forallb (fun a => (a =? 0) || (gf_mul a (gf_inv a) =? 1)) all_bytes = true.
+(* the inverse really is one: a * inv(a) = 1 for a <> 0, inv(0) = 0, values are bytes *)
+Lemma gf_inv_correct :
+  forallb (fun a => (if a =? 0 then gf_inv a =? 0 else gf_mul a (gf_inv a) =? 1) && byte_ok (gf_inv a)) all_bytes = true.
 Proof. vm_compute. reflexivity. Qed.
 
 (* ------------------------------------------------------------------ shape of the output *)
